@@ -24,7 +24,8 @@ def pmeta(d):
 def file_case(fa, cid, raw, records, codec="null", interval=16000, level=None, meta=None, sync=b"", parsed_form=False,
               kind_out="bytesio", kind_in="bytesio", tmpdir=None):
     case = {"id": cid, "op": "file_rt", "schema": proj.pj(raw), "records": [proj.pv(r) for r in records], "codec": proj.cps(codec),
-            "interval": interval, "level": -1 if level is None else level, "meta": pmeta(meta or {}), "sync": list(sync),
+            "interval": interval, "level": -1 if level is None else level,
+            "meta": pmeta({k: v for k, v in (meta or {}).items() if not k.startswith("avro.")}), "sync": list(sync),
             "kind_out": kind_out, "kind_in": kind_in, "form": "parsed" if parsed_form else "raw", "calls_out": [], "calls_in": []}
     try:
         schema = fa.parse_schema(raw) if parsed_form else raw
@@ -32,7 +33,8 @@ def file_case(fa, cid, raw, records, codec="null", interval=16000, level=None, m
     except Exception as e:  # noqa: BLE001
         case["perr"] = proj.pexc(e)["exc"]
         return case
-    kw = dict(codec=codec, sync_interval=interval, metadata=dict(meta) if meta is not None else None, sync_marker=sync)
+    shared = meta is not None and "shared" in meta
+    kw = dict(codec=codec, sync_interval=interval, metadata=(meta if shared else dict(meta)) if meta is not None else None, sync_marker=sync)
     if level is not None:
         kw["codec_compression_level"] = level
     path = None
@@ -103,6 +105,7 @@ def make_cases(ctx, fa, n, label="f"):
     cases = []
     tmp = tempfile.mkdtemp(prefix="verif_c04_", dir=os.path.join(core.VERIF, ".work"))
     tries = 0
+    shared_meta = {"shared": "metadata dict reused by several writer() calls"}
     while len(cases) < n and tries < n * 5:
         tries += 1
         g = gen.Gen(rnd, logical=False, max_depth=rnd.choice([1, 2, 2]), big=False)
@@ -126,7 +129,9 @@ def make_cases(ctx, fa, n, label="f"):
         first = 0
         interval = rnd.choice([1, 2, 7, 16, 64, 100, 1000, 16000, max(1, total), max(1, total - 1), total + 1, max(1, total // 2)])
         level = rnd.choice([None, None, 1, 6, 9]) if codec in ("deflate",) else None
-        meta = rnd.choice([None, {}, {"k": "v"}, {"user.key": "värde €", "a": ""}, {"x" * 70: "y" * 300}])
+        meta = rnd.choice([None, {}, {"k": "v"}, {"user.key": "värde €", "a": ""}, {"x" * 70: "y" * 300}, "shared", "shared"])
+        if meta == "shared":
+            meta = shared_meta          # the same dict object handed to one writer() call after another, as an application would
         sync = rnd.choice([b"", bytes(rnd.getrandbits(8) for _ in range(16)), bytes(range(16)), b"\x00" * 16])
         kind_out = rnd.choice(["bytesio", "bytesio", "pipe", "file"])
         kind_in = rnd.choice(["bytesio", "seq", "seq", "file"]) if kind_out == "file" else rnd.choice(["bytesio", "seq"])
